@@ -72,6 +72,7 @@ def small_dataset():
     ds = gen.gen_dataset(gen.Rng(11), dict(gen.PROFILES["opt"], base=10))
     ds.scens = [sc for sc in ds.scens if sc[0] != 4]               # the generator's own fourth scenario is replaced by
     ds.scens.append((4, [[], [], [], [], [], [], [], [], []]))     # a scenario without services: EMPTY_SCENARIO
+    ds.scens.append((5, [[1, 2], [], [], [], [], [], [], [1, 2], []]))   # services named, but every agency excepted: NO trip is admitted
     return ds
 
 
@@ -222,11 +223,14 @@ def main(pid, tier, seed, replay_path=None):
                     fails.append(("server process died (exit %s)" % srv.exit_status(), sqs))
                     srv = l3.Server(binary, cache, stub.port)
         # time extremes on an otherwise valid query: must be answered and must not kill the process
-        for t in [0, 1, 3599, 3600, 86399, 86400, 115199, 115200, 115201, 118799, 118800, 200000, 2147483647]:
+        # (also on scenario 5, which names services but admits no trip at all: its connection set is EMPTY)
+        for t in [0, 1, 3599, 3600, 86399, 86400, 115199, 115200, 115201, 118799, 118800, 200000, 2147483647, -36000, -3600, -7200, -30000]:
             for tt in (0, 1):
               for kind in ("route", "access", "summary"):
+                scen_here = 5 if t < 0 else 1
+                t = abs(t)
                 lst = ([("place", "-73.0,45.0001")] if kind == "access" else [("origin", "-73.0,45.0001"), ("destination", "-73.0,45.0002")]) + \
-                      [("scenario_id", SCEN(1)), ("time_of_trip", str(t)), ("time_type", str(tt))]
+                      [("scenario_id", SCEN(scen_here)), ("time_of_trip", str(t)), ("time_type", str(tt))]
                 qs = qs_of("access" if kind == "access" else "route", lst)
                 if kind == "summary":
                     qs = qs.replace("/v2/route?", "/v2/summary?", 1)
